@@ -385,15 +385,18 @@ class Local:
                 nc_pair = False
                 if isinstance(val, NoConnVal):
                     self.noconn_uses.setdefault(val.ncid, []).append((iname, port))
-                    if kind == "arr":
-                        raise ModelError("no-connect on array (outside this model)")
-                    nc_pair = kind == "pair"  # every member instance's port ends on a net of its own
+                    if kind == "arr" and not isinstance(shape, int):
+                        raise ModelError("no-connect on a bundle-valued array port (outside this model)")
+                    nc_pair = kind in ("pair", "arr")  # every member / element instance's port ends on a net of its own
                     val = None  # R6: the node's own bits are private
                 where = f"{m.name}.{iname}.{port}"
                 if kind == "inst":
                     if val is not None:
                         self.unify(node, val, where)
                     self._assign(elems[0][1], port, node)
+                elif kind == "arr" and nc_pair:
+                    for k, (_seg, pm) in enumerate(elems):
+                        self._assign(pm, port, self.port_node(("nc", iname, k), port, shape))
                 elif kind == "arr":  # R8
                     if val is None or isinstance(val, dict) or isinstance(shape, tuple):
                         if val is not None:
